@@ -840,8 +840,22 @@ impl Prioritize {
                             }))
                         }
                         Some(Frame::PushPromise(pp)) => {
-                            let mut pushed =
-                                stream.store_mut().find_mut(&pp.promised_id()).unwrap();
+                            let mut pushed = match stream.store_mut().find_mut(&pp.promised_id()) {
+                                Some(pushed) => pushed,
+                                None => {
+                                    // The promised stream was cancelled and released
+                                    // before its PUSH_PROMISE could be written: there
+                                    // is nothing left to promise.
+                                    tracing::trace!("dropping PUSH_PROMISE of a released stream");
+                                    if !stream.pending_send.is_empty()
+                                        || stream.state.is_scheduled_reset()
+                                    {
+                                        self.pending_send.push(&mut stream);
+                                    }
+                                    counts.transition_after(stream, is_pending_reset);
+                                    continue;
+                                }
+                            };
                             pushed.is_pending_push = false;
                             // Transition stream from pending_push to pending_open
                             // if possible
